@@ -29,12 +29,15 @@ func getGoCodeParser(normalizeWhitespace bool) parse.Parser[Node] {
 			return r, false, err
 		}
 
+		// Clear any optional whitespace.
+		_, _, _ = parse.OptionalWhitespace.Parse(pi)
+
+		// The block is multiline if the closing braces are not on the line that the block started on.
+		// This includes `{{ x := 1 // comment` followed by `}}` on the next line, where joining the
+		// lines would put the closing braces inside the comment.
 		if l != pi.Position().Line {
 			r.Multiline = true
 		}
-
-		// Clear any optional whitespace.
-		_, _, _ = parse.OptionalWhitespace.Parse(pi)
 
 		// }}
 		if _, ok, err = dblCloseBraceWithOptionalPadding.Parse(pi); err != nil || !ok {
